@@ -188,14 +188,14 @@ def _countersig(prog, md, effs):
         firsts = {}
         for k, v in pvs.items():
             ks = md.sym(k)
-            if ks[0] == "deref" and is_call(ks[1], "core::ops::Index::index") and ks[1][2][1] == ("const", 0):
+            if ks[0] == "deref" and is_call(ks[1], "core::ops::index::Index::index") and ks[1][2][1] == ("const", 0):
                 a0 = ks[1][2][0]
                 a0 = a0[1] if a0[0] == "ref" else a0
                 if a0[0] == "tryok" and is_call(a0[1], codec.TRY_ARRAY) and a0[1][2] == (V,):
                     firsts["element 0 of the array"] = sorted(v)
-            elif any(is_call(s, "core::ops::Index::index") for s in subterms(ks)):
+            elif any(is_call(s, "core::ops::index::Index::index") for s in subterms(ks)):
                 firsts["other element: " + show(ks)[:60]] = sorted(v)
-        if arg[0] == "aggr" and arg[1] == "ciborium::Value" and arg[2] == "Array":
+        if arg[0] == "aggr" and arg[1] == "ciborium::value::Value" and arg[2] == "Array":
             inner = arg[3][0][1]
             if inner[0] == "tryok" and is_call(inner[1], codec.TRY_ARRAY) and inner[1][2] == (V,):
                 single = (e, firsts)
